@@ -146,6 +146,7 @@ func c08Features() []c08Feature {
 }
 
 type c08Program struct {
+	late  map[int]bool // features whose text follows the target declaration
 	feats []c08Feature
 	extra string // extra text (named scenarios)
 }
@@ -154,12 +155,21 @@ func (p *c08Program) text() string {
 	var b strings.Builder
 	b.WriteString("# generated program\n")
 	var exprs []string
-	for _, f := range p.feats {
-		b.WriteString(f.setup)
+	for i, f := range p.feats {
+		if !p.late[i] {
+			b.WriteString(f.setup)
+		}
 		exprs = append(exprs, f.expr)
 	}
 	b.WriteString(p.extra)
 	fmt.Fprintf(&b, "@target()\ndef t0(self):\n    v.body(\"//:t0\", [%s], [], \"\")\n", strings.Join(exprs, ", "))
+	// some helpers and globals are bound only after the target that uses them has been declared (legal: names are
+	// resolved when the body runs); they are part of what the function references all the same
+	for i, f := range p.feats {
+		if p.late[i] {
+			b.WriteString(f.setup)
+		}
+	}
 	// a second target that references the first target object and a nested function
 	b.WriteString("@target(deps=[\":t0\"])\ndef t1(self):\n    def inner(q):\n        return [q, t0]\n    v.body(\"//:t1\", [len(inner(1))], [], \"\")\n")
 	return b.String()
@@ -231,6 +241,12 @@ func c08Case(c *core.Ctx, id string) {
 		r.Shuffle(len(all), func(i, j int) { all[i], all[j] = all[j], all[i] })
 		k := 1 + r.IntN(6)
 		prog.feats = all[:k]
+		prog.late = map[int]bool{}
+		for i := range prog.feats {
+			if r.IntN(3) == 0 {
+				prog.late[i] = true
+			}
+		}
 		for _, f := range prog.feats {
 			muts = append(muts, f.muts...)
 		}
